@@ -142,6 +142,7 @@ class Executor(object):
         self.shared_hook = None
         self.call_hook = None
         self.capture_cuts = False
+        self.block_bounds = {}
 
     def reset(self):
         self.panics = []  # (guard, message, fn name, bb)
@@ -469,7 +470,11 @@ class Executor(object):
         raise Unsupported('binop ' + op)
 
     # ------------------------------------------------------------ calls
-    def loop_bound(self, fn):
+    def loop_bound(self, fn, b=None):
+        if self.block_bounds:
+            v = self.block_bounds.get((fn.name, b))
+            if v is not None:
+                return v
         for k, v in self.loop_bounds.items():
             if fn.name.endswith(k):
                 return v
@@ -505,6 +510,29 @@ class Executor(object):
             st2.mem.pop(('L', fr.fid, l), None)
         return ret, st2, live
 
+    def run_from(self, fn, block, locals_by_name, st, pc=S.TRUE):
+        """start executing `fn` at `block` (e.g. a loop head) with the given values of its named
+        variables (debug names; parameters included) and run to the function's return.
+        Used for inductive steps over one loop iteration.  Returns (return value, state, live, frame)."""
+        fn.parse()
+        self.fns_used[fn.name] = fn
+        self.ncalls += 1
+        self.next_fid += 1
+        fr = Frame(fn, self.next_fid)
+        for name, v in locals_by_name.items():
+            if name not in fn.debug_names:
+                raise Unsupported('run_from: %s has no variable named %s' % (fn.name, name))
+            st.mem[('L', fr.fid, fn.debug_names[name])] = v
+        self.depth += 1
+        st2, live = self.run(fr, block, EXIT, st, pc, {})
+        self.depth -= 1
+        if st2 is None:
+            return None, None, S.FALSE, fr
+        ret = st2.mem.get(('L', fr.fid, 0), UNIT)
+        for l in fn.local_ty:
+            st2.mem.pop(('L', fr.fid, l), None)
+        return ret, st2, live, fr
+
     def call(self, name, argv, st, pc=S.TRUE):
         """entry point for harnesses: call a crate function by callee text"""
         fn = self.resolve(name)
@@ -539,11 +567,11 @@ class Executor(object):
             if b == EXIT:
                 raise Unsupported('internal: fell through EXIT in %s' % fn.name)
             cnt = visits.get(b, 0) + 1
-            if cnt > 1 and cnt > self.loop_bound(fn):
+            if cnt > 1 and cnt > self.loop_bound(fn, b):
                 g = S.And(pc, live)
                 if g is not S.FALSE:
                     self.unwinds.append((g, fn.name, b))
-                    if self.capture_cuts:
+                    if self.capture_cuts and (fn.name, b) in self.block_bounds:
                         # loop cut: keep the state at the loop head for inductive reasoning
                         self.cuts.append((g, st.copy(), fr, b))
                 return None, S.FALSE
